@@ -14,10 +14,10 @@ CONSTANTS
   LoadResults = {"ok", "notfound"}
   SaveResults = {TRUE}
   Jumps = {1}
-  MaxTicks = 2
-  MaxStarts = 4
-  MaxVer = 4
-  MaxEnt = 4
+  MaxTicks = 3
+  MaxStarts = 3
+  MaxVer = 3
+  MaxEnt = 3
   MaxPurges = 0
   MaxKills = 1
   MaxDrops = 1
